@@ -155,6 +155,10 @@ def run(rep: Report, repo: Repo, tier: str) -> None:
                   "RESULT_VARIABLE with message(FATAL_ERROR)", witness="cminx_gen_rst(missing_dir out)")
         rep.check(not anc, "C19-R1", where, "execute_process is unconditional",
                   "the CMinx invocation is nested in a conditional block: some calls generate nothing and report nothing")
+        for kw in ("WORKING_DIRECTORY", "TIMEOUT", "INPUT_FILE"):
+            rep.check(kw not in sections, "C19-R2", where, f"execute_process without {kw}",
+                      f"{kw} makes the CMinx run differ from the equivalent command line (relative input, output and -s paths are "
+                      f"resolved in another directory / the run may be cut short)", witness="cminx_gen_rst(src docs -s conf.yaml) from a -P script elsewhere")
         cmd = sections.get("COMMAND", [])
         n_cmd = sum(1 for a in words if a.kind == "unquoted" and a.text == "COMMAND")
         rep.check(n_cmd == 1, "C19-R2", where, f"{n_cmd} COMMAND clause(s)", "several COMMAND clauses form a pipeline")
